@@ -122,9 +122,11 @@ pub fn groups(tier: &FTier) -> Vec<InstSpec> {
             for (pi, p) in plist.iter().enumerate() {
                 if tier.thorough || tier.full_cross {
                     // quick: four dimension modes everywhere, all eight for two of the parameter sets
-                    let dims: &[DimMode] = if tier.thorough || pi == 0 {
+                    // the two large run-time dimensions are expensive (BDF makes 2n calls per
+                    // Jacobian): they go with a few parameter sets only, also in the thorough tier
+                    let dims: &[DimMode] = if pi == 0 || (tier.thorough && (pi == 4 || pi == 6)) {
                         &dims_all
-                    } else if pi == 4 {
+                    } else if tier.thorough || pi == 4 {
                         &dims_all[..8]
                     } else {
                         &dims_all[..4]
